@@ -35,7 +35,11 @@ def handler(case):
                 if dims:
                     assert list(s.shape) == [dims[0], dims[1] if len(dims) > 1 else 1], (s.shape, dims)
                 # veccat is column-major
-                out += [1000 * (r + 1) + 100 * (c + 1) for c in range(s.shape[1]) for r in range(s.shape[0])]
+                if case.get("decode") == "powers":
+                    # for-statement in a function: the residual is b - sum(x[selected]); element r weighs 8^(r-1)
+                    out += [8 ** r for r in range(s.shape[0] * s.shape[1])]
+                else:
+                    out += [1000 * (r + 1) + 100 * (c + 1) for c in range(s.shape[1]) for r in range(s.shape[0])]
             else:
                 out += [getter(s.name())] * (s.shape[0] * s.shape[1])
         return out
@@ -49,6 +53,16 @@ def handler(case):
     if target not in [v.symbol.name() for v in m.alg_states]:
         return {"other": "%s is not an algebraic state" % target}
     out = np.array(f(*args)).flatten(order="F")
+    if case.get("decode") == "powers":
+        v = abs(out[0])
+        if len(out) != 1 or v != int(v):
+            return {"other": "unexpected residual %r" % (list(out),)}
+        v, sel, r = int(v), [], 1
+        while v:
+            sel += [[r, 1, 0]] * (v % 8)
+            v //= 8
+            r += 1
+        return {"sel": sel, "neq": 1}
     sel = []
     for v in out:
         if v != v or v != int(v):
